@@ -64,7 +64,7 @@ def handleRemOv (j : Json) : R Json := do
   let env ← envOfJson j
   let hits ← listOf hitOfJson (← fld j "hits")
   let impl ← optHitsOfJson (fldD j "impl" Json.null)
-  let m := removeOverlapping? env hits
+  let m := some (removeOverlapping env hits)
   let inputSorted := sortedByStart hits
   return jObj [
     ("model", match m with | some l => hitsToJson l | none => Json.null),
@@ -168,7 +168,9 @@ def handleEquiv (j : Json) : R Json := do
       let out := ids.filterMap fun i => hits.find? (fun h => h.uid == i)
       let v := equivSpec eq hits out
       jObj [("sublist", b (v.sublist && out.length == ids.length)), ("separated", b v.separated),
-            ("best", b v.bestKept), ("untouched", b v.untouched), ("ok", b (v.ok && out.length == ids.length))]
+            ("best", b v.bestKept), ("untouched", b v.untouched),
+            ("exact", b (ids == (specFilterB eq hits).map (·.uid))),
+            ("ok", b (v.ok && out.length == ids.length && ids == (specFilterB eq hits).map (·.uid)))]
     | none => Json.null
   let others ← listOf (listOf fhitOfJson) (fldD j "others" (Json.arr #[]))
   return jObj [
